@@ -550,6 +550,165 @@ def r01_4e_flatten_traces(ctx):
     ctx.require_min("R01.4e", 40)
 
 
+def r01_14_compile_subroutine(ctx):
+    from rules.graphcommon import GraphWorld, bounded_traces, reachable
+    from sa.minieval import Raised, Unknown, Sym, Rec
+
+    ctx.rule("R01.14", "compileSubroutine keeps the routine's meaning: a body that does not return on every path gets exactly one return appended (with its value when it has one); in a routine with a deferred expression every retsub - alone in its block, first block or not, reached from one or several predecessors - is preceded by a fresh copy of the deferred code and nothing else changes; every subroutine referenced from the compiled graph is compiled exactly once and recorded in the call graph")
+    f = ctx.model.find_func("compileSubroutine", "pyteal.compiler.compiler")
+    ctx.analysed(f.fq)
+    bodies = {
+        "straight": {"a": (["int 1"], ["r"]), "r": (["retsub"], [])},
+        "two returns": {"c": (["int 1"], ["t", "e"]), "t": (["int 2"], ["r1"]), "r1": (["retsub"], []), "e": (["int 3"], ["r2"]), "r2": (["retsub"], [])},
+        "retsub is the first block": {"r": (["retsub"], [])},
+        "one retsub block reached from both arms": {"c": (["int 1"], ["t", "e"]), "t": (["int 2"], ["r"]), "e": (["int 3"], ["r"]), "r": (["retsub"], [])},
+        "return inside a loop and after it": {"h": (["int 1"], ["b", "x"]), "b": (["int 5"], ["r1", "h"]), "r1": (["retsub"], []), "x": (["int 7"], ["r2"]), "r2": (["retsub"], [])},
+        "conditional start with retsub arm": {"c": (["int 1"], ["r1", "e"]), "r1": (["retsub"], []), "e": (["int 3"], ["r2"]), "r2": (["retsub"], [])},
+    }
+    deferreds = {"one block": [["load 9"]], "two blocks": [["load 9"], ["int 0", "pop"]], "none": None}
+
+    def world():
+        W = GraphWorld(ctx)
+        return W
+
+    def expr_from_spec(W, spec, name, has_return, ttype="none"):
+        def teal(options, spec=spec):
+            blocks = W.build(spec)
+            for b in blocks.values():
+                b.attrs.setdefault("_sframes_container", None)
+            names = list(spec)
+            ends = [n for n in names if not spec[n][1]]
+            return blocks[names[0]], blocks[ends[-1]]
+
+        return Sym(name, attrs={"$isa": {"Expr"}, "trace": None}, methods={"__teal__": teal, "has_return": lambda: has_return, "type_of": lambda: f"TealType.{ttype}"})
+
+    def chain_expr(W, oplists, name):
+        def teal(options):
+            spec = {f"d{k}": (ops, [f"d{k + 1}"] if k + 1 < len(oplists) else []) for k, ops in enumerate(oplists)}
+            blocks = W.build(spec)
+            for b in blocks.values():
+                b.attrs.setdefault("_sframes_container", None)
+            return blocks["d0"], blocks[f"d{len(oplists) - 1}"]
+
+        return Sym(name, attrs={"$isa": {"Expr"}, "trace": None}, methods={"__teal__": teal, "has_return": lambda: False, "type_of": lambda: "TealType.none"})
+
+    def run(W, ast_sym, extra_names=None):
+        options = Sym("options", attrs={"use_frame_pointers": False, "version": 8}, methods={"setSubroutine": lambda s: options.attrs.__setitem__("currentSubroutine", s)})
+        graph, starts, ends = {}, {}, {}
+
+        def extra(e, me):
+            t = u(e)
+            if t == "compileSubroutine":
+                return lambda *a: me.call_def(f.node, list(a), {}, {})
+            if t == "TealType":
+                return Sym("TealType", attrs={k: f"TealType.{k}" for k in ("none", "uint64", "bytes", "anytype")})
+            if t == "Return":
+                def mk(value=None):
+                    def teal(options, value=value):
+                        blk = W.build({"ret": (["retsub" if options.attrs.get("currentSubroutine") is not None else "return_"], [])})["ret"]
+                        blk.attrs.setdefault("_sframes_container", None)
+                        if value is None:
+                            return blk, blk
+                        vs, ve = value.methods["__teal__"](options)
+                        ve.methods["setNextBlock"](blk)
+                        return vs, blk
+                    return Sym("Return(...)", attrs={"$isa": {"Expr"}, "trace": None}, methods={"__teal__": teal, "has_return": lambda: True, "type_of": lambda: "TealType.none"})
+                return mk
+            if t == "Seq":
+                def mk(items):
+                    def teal(options, items=items):
+                        first = last = None
+                        for it in items:
+                            s_, e_ = it.methods["__teal__"](options)
+                            if first is None:
+                                first = s_
+                            else:
+                                last.methods["setNextBlock"](s_)
+                            last = e_
+                        return first, last
+                    return Sym("Seq(...)", attrs={"$isa": {"Expr"}, "trace": None}, methods={"__teal__": teal, "has_return": lambda: items[-1].methods["has_return"](), "type_of": lambda: items[-1].methods["type_of"]()})
+                return mk
+            raise Unknown()
+
+        W.run(f.node, {"ast": ast_sym, "options": options, "subroutineGraph": graph, "subroutine_start_blocks": starts, "subroutine_end_blocks": ends}, extra, f.fq)
+        return graph, starts, ends
+
+    # --- deferred code before every retsub
+    for bname, spec in bodies.items():
+        for dname, dops in deferreds.items():
+            W = world()
+            decl_attrs = {"deferred_expr": chain_expr(W, dops, "deferred") if dops else None}
+            sub = Sym("sub", attrs={"id": 1})
+            decl = expr_from_spec(W, spec, "declaration", True)
+            decl.attrs.update({"$isa": {"Expr", "SubroutineDeclaration"}, "subroutine": sub, **decl_attrs})
+            sub.methods["get_declaration_by_option"] = lambda fp, decl=decl: decl
+            construct = f"compileSubroutine[{bname}; deferred: {dname}]"
+            Wref = world()
+            flat = [o for ops in (dops or []) for o in ops]
+            ref_spec = {k: ((flat + ops) if "retsub" in ops else ops, succ) for k, (ops, succ) in spec.items()}
+            want = bounded_traces(Wref.build(ref_spec)[next(iter(spec))], 30)
+            try:
+                graph, starts, ends = run(W, decl)
+            except Raised as r:
+                ctx.bad("R01.14", construct, f"dies with {r.exc_text[:70]}", f.where)
+                continue
+            st = starts.get(sub)
+            if not isinstance(st, Sym):
+                ctx.bad("R01.14", construct, "the routine's start block is not recorded", f.where)
+                continue
+            got = bounded_traces(st, 30)
+            ctx.check(got == want, "R01.14", construct, f"executions differ: expected only {sorted(want - got)[:2]}, produced only {sorted(got - want)[:2]}", f.where, fact={"executions": len(want)})
+    # --- a body that does not return gets its return
+    for ttype, has_ret, in_sub in (("none", False, True), ("uint64", False, True), ("none", False, False), ("uint64", False, False), ("none", True, True)):
+        W = world()
+        spec = {"a": (["int 1", "pop"] if ttype == "none" else ["int 1"], [])} if not has_ret else {"a": (["int 1", "pop"], ["r"]), "r": (["retsub"], [])}
+        body = expr_from_spec(W, spec, "body", has_ret, ttype)
+        sub = Sym("sub", attrs={"id": 1}) if in_sub else None
+        if in_sub:
+            body.attrs.update({"$isa": {"Expr", "SubroutineDeclaration"}, "subroutine": sub, "deferred_expr": None})
+            sub.methods["get_declaration_by_option"] = lambda fp, body=body: body
+        construct = f"compileSubroutine[{'subroutine' if in_sub else 'main'}, body of type {ttype}, {'returns' if has_ret else 'falls through'}]"
+        try:
+            graph, starts, ends = run(W, body)
+        except Raised as r:
+            ctx.bad("R01.14", construct, f"dies with {r.exc_text[:70]}", f.where)
+            continue
+        got = bounded_traces(starts[sub], 30)
+        base = tuple(spec["a"][0])
+        want = {base + (("retsub",) if in_sub else ("return_",))}
+        ctx.check(got == want, "R01.14", construct, f"produces {sorted(got)}; expected {sorted(want)}", f.where, fact={})
+    # --- referenced subroutines are compiled once each and recorded
+    W = world()
+    subs = {k: Sym(f"sub{k}", attrs={"id": k}) for k in (1, 2, 3)}
+    calls = {None: [1, 2], 1: [2, 3], 2: [1], 3: []}
+
+    def mk_decl(k):
+        def teal(options, k=k):
+            blocks = W.build({"a": (["int 1", "pop"], ["r"]), "r": (["retsub" if k is not None else "return_"], [])})
+            for b in blocks.values():
+                b.attrs.setdefault("_sframes_container", None)
+            for callee in calls[k]:
+                op = W.op("callsub")
+                op.methods["getSubroutines"] = lambda callee=callee: [subs[callee]]
+                blocks["a"].attrs["ops"].append(op)
+            return blocks["a"], blocks["r"]
+
+        d = Sym(f"decl{k}", attrs={"$isa": {"Expr"} | ({"SubroutineDeclaration"} if k is not None else set()), "trace": None, "deferred_expr": None, "subroutine": subs.get(k)}, methods={"__teal__": teal, "has_return": lambda: True, "type_of": lambda: "TealType.none"})
+        return d
+
+    counts = {}
+    for k, sdef in subs.items():
+        d = mk_decl(k)
+        sdef.methods["get_declaration_by_option"] = (lambda d, k: lambda fp: (counts.__setitem__(k, counts.get(k, 0) + 1), d)[1])(d, k)
+    try:
+        graph, starts, ends = run(W, mk_decl(None))
+        ok = set(starts) == {None, subs[1], subs[2], subs[3]} and {k: set(v) for k, v in graph.items()} == {subs[1]: {subs[2], subs[3]}, subs[2]: {subs[1]}, subs[3]: set()}
+        ctx.check(ok, "R01.14", "compileSubroutine[call graph main->{1,2}, 1->{2,3}, 2->{1}]", f"compiled routines {sorted(repr(k) for k in starts)}; call graph {{{', '.join(f'{k!r}: {sorted(map(repr, v))}' for k, v in graph.items())}}}", f.where, fact={"routines": len(starts)})
+    except Raised as r:
+        ctx.bad("R01.14", "compileSubroutine[call graph]", f"dies with {r.exc_text[:70]}", f.where)
+    ctx.require_min("R01.14", 20)
+
+
 def r01_13_is_terminal(ctx):
     from rules.graphcommon import GraphWorld
     from sa.minieval import Raised
@@ -630,6 +789,7 @@ def run(ctx):
     r01_6e_normalize(ctx)
     r01_13_is_terminal(ctx)
     r01_4e_flatten_traces(ctx)
+    r01_14_compile_subroutine(ctx)
     r01_7_replace_total(ctx)
     r01_8_api_ops(ctx)
     r01_10_routine_epilogue(ctx)
